@@ -64,7 +64,8 @@ def gen_case(rng, tier, index):
     for _ in range(BATCH[tier]):
         g = gen_rewrite.Gen(rng, tier, shared_blocks=True, fnscope_p=0.9,
                             anywhere_p=0.8, popular_callee_p=0.5,
-                            themed_p=0.5, double_call_p=0.25)
+                            themed_p=0.5, double_call_p=0.25,
+                            data_bytes_p=0.3, data_temp_p=0.9)
         g.module()
         g.edits()
         regs = {"x64": ["rax", "rbx", "rcx", "rdx", "rsi", "r8", "r12"],
